@@ -120,6 +120,10 @@ static void setup_static(Runner &r, const Tier &t) {
                 gr_feature_val *cl = gr_featureval_clone(fv);
                 for (size_t k = 0; k < L.feats.size(); ++k) if (L.fref[k] && gr_fref_feature_value(L.fref[k], cl) != gr_fref_feature_value(L.fref[k], fv)) { fail("clone differs from source"); break; }
                 gr_featureval_destroy(cl); gr_featureval_destroy(fv); c.counters[0] = c.counters[0] + 1;
+                // a language query must not change what the defaults are afterwards
+                { gr_feature_val *dv = gr_face_featureval_for_lang(f, 0); std::vector<uint16_t> dw = expect_for_lang(L, 0);
+                  for (size_t k = 0; k < L.feats.size(); ++k) { if (!L.fref[k] || lang_feature(L.feats[k]) || dup) continue; if (gr_fref_feature_value(L.fref[k], dv) != dw[k]) { char b[160]; snprintf(b, sizeof b, "defaults changed after featureval_for_lang(%08x): feature %zu", q, k); fail(b); break; } }
+                  gr_featureval_destroy(dv); }
             }
         }
         c.cls(hash_str(font) ^ L.feats.size());
